@@ -51,6 +51,14 @@ class Hooked(ChainObject, AutoParameterObject):
     def init_chain(self, chain):
         self._tcv_chain = sorted(chain.tasks)
 
+class AutoC(AutoParameterObject):
+    """arguments whose names START with the names that are excluded from persistence (verbose, debug)"""
+    def __init__(self, step, debug_max_rows=0, verbose_labels=False, debug=0):
+        self.step = step
+        self.debug_max_rows = debug_max_rows
+        self.verbose_labels = verbose_labels
+        self.debug = debug
+
 class AutoS(AutoParameterObject):
     """keeps its argument as a set (what a class that wants membership tests does)"""
     def __init__(self, tags):
@@ -69,7 +77,7 @@ class Plain:
         self.kwargs = kwargs
 '''
     exec(src, m.__dict__)
-    for c in ('AutoA', 'AutoB', 'Hooked', 'AutoS', 'User', 'Plain'):
+    for c in ('AutoA', 'AutoB', 'AutoC', 'Hooked', 'AutoS', 'User', 'Plain'):
         getattr(m, c).__module__ = name
     sys.modules[name] = m
     return m
@@ -80,6 +88,8 @@ AUTO_SIGS = {
     'AutoB': dict(params=[('x', [None]), ('y', [None]), ('debug', [0])], ignore=['verbose', 'debug'], dropdef=['y']),
     'Hooked': dict(params=[('a', None)], ignore=['verbose', 'debug'], dropdef=[]),
     'AutoS': dict(params=[('tags', None)], ignore=['verbose', 'debug'], dropdef=[]),
+    'AutoC': dict(params=[('step', None), ('debug_max_rows', [0]), ('verbose_labels', [False]), ('debug', [0])],
+                  ignore=['verbose', 'debug'], dropdef=[]),
 }
 
 
